@@ -1038,7 +1038,8 @@ func (c *compiler) doOptimize(in []instruction) []instruction {
 		case n < len(in)-1 && in[n].Code == codePush && in[n+1].Code == codeAdd:
 			out = append(out, instruction{Pos: in[n].Pos, Code: codeIncDec, A: in[n].A})
 			n += 1
-		case n < len(in)-1 && in[n].Code == codePush && in[n+1].Code == codeSub:
+		case n < len(in)-1 && in[n].Code == codePush && in[n+1].Code == codeSub && in[n].A != 0:
+			// (x - 0 is not x + (-0) for a float64 negative zero: it stays a subtraction)
 			out = append(out, instruction{Pos: in[n].Pos, Code: codeIncDec, A: -in[n].A})
 			n += 1
 
